@@ -348,6 +348,7 @@ func idleProblems(s goja.VerifState, drains bool) []string {
 	chk(s.RefStack == 0, "refStack=%d", s.RefStack)
 	chk(s.Sp == 0, "sp=%d", s.Sp)
 	chk(s.Sb == -1, "sb=%d", s.Sb)
+	chk(s.PrgNil, "vm.prg still set (the last program would show up as a frame in later stack traces)")
 	chk(s.StashGlobal, "scope chain is not the global scope")
 	chk(s.PrivEnvNil, "private environment not cleared")
 	chk(!s.Interrupted, "interrupt flag still set")
@@ -601,6 +602,9 @@ func (e *faultsim) Run(t *core.Tape, want bool) *core.Result {
 	for i, o := range cf {
 		if o.panicV != nil {
 			res.OutOfScope = fmt.Sprintf("fault-free run panicked in call#%d: %v", i, o.panicV)
+			if os.Getenv("VERIF_DEBUG") != "" {
+				fmt.Fprintln(os.Stderr, render(nil, nil))
+			}
 			return res
 		}
 	}
